@@ -59,6 +59,16 @@ def trees(rng):
         for i in range(700):
             sc.f(b'/W/files/f%d' % i, text=b'')
         sc.opts = ['r']; sc.paths = [b'pipes', b'files', b'DEST']; sc.tag = 'all-workers-die-silently'; sc.only_workers = (1, 2, 4); out.append(sc)
+        # the destination holds a regular file / a dangling link where the source has a DIRECTORY: the directory cannot be
+        # made; the run must end (with an error), not retry for ever
+        for kind in ('file', 'dangling-link'):
+            sc = treerun.Scn(); sc.driver = driver
+            sc.d(b'/W').d(b'/W/S').f(b'/W/S/a').d(b'/W/S/sub').f(b'/W/S/sub/b').d(b'/W/S/sub/deep').f(b'/W/S/sub/deep/c').d(b'/W/DEST').d(b'/W/DEST/S')
+            if kind == 'file':
+                sc.f(b'/W/DEST/S/sub')
+            else:
+                sc.l(b'/W/DEST/S/sub', b'nowhere')
+            sc.opts = ['r']; sc.paths = [b'S', b'DEST']; sc.tag = 'directory-onto-' + kind; sc.only_workers = (1, 4); out.append(sc)
         sc = treerun.Scn(); sc.driver = driver
         sc.d(b'/W').d(b'/W/S').f(b'/W/S/a').d(b'/W/DEST').s(b'/W/DEST/S', 'fifo')
         sc.opts = ['r', 'n']; sc.paths = [b'S', b'DEST']; sc.tag = 'fifo-at-destination-noclobber'; out.append(sc)
@@ -126,7 +136,7 @@ def run(ctx):
                 opened = [e for e in o0.res.trace if e['sys'] == 'openat' and e['ret'] >= 0 and any(x in (e.get('fdpath') or '') for x in ('/fifo', '/sock', 'onlyfifo', 'realfifo', 'S/.gitignore'))]
                 if opened:
                     ctx.violation(f'{sc.tag}-{sc.driver}-opened.json', dict(events=opened[:5]), 'C07/C14: a FIFO or socket source was opened')
-                if workers != 1 or sc.tag in ('all-workers-die-silently', 'prealloc-tail', 'gitignore-is-a-fifo', 'many-empty-files'):
+                if workers != 1 or sc.tag in ('all-workers-die-silently', 'prealloc-tail', 'gitignore-is-a-fifo', 'many-empty-files', 'directory-onto-file', 'directory-onto-dangling-link'):
                     continue
                 # a single fault at every step-call, each under a perturbed schedule
                 occ, plans = {}, []
